@@ -41,7 +41,8 @@ MIN = {'quick': {'distinct': 250,
                                  ('own reader idempotent', 40),
                                  ('encoding latin-1', 15),
                                  ('encoding utf-16', 15), ('gzip source', 10),
-                                 ('directory source', 5)])},
+                                 ('directory source', 5),
+                                 ('directory of gzip sources', 3)])},
        'thorough': {'distinct': 5000, 'hooks': {'cli.transform': 15000}}}
 
 CARRY = {
@@ -167,6 +168,8 @@ def words_pool(rng, enc, paren_ok):
         pool += ['(', ')', '[', ']', 'a(b)c', '-LRB-', '{']
     if rng.random() < 0.25:
         pool += gen.WORDS_TABSTOP
+    if rng.random() < 0.2:
+        pool += gen.WORDS_HASH
     return pool
 
 
@@ -377,11 +380,16 @@ def run_dir(ctx, case, rng):
     os.mkdir(d)
     banks = case['banks']
     names = []
+    gz = case.get('gz') and sfmt != 'tigerxml'
     for i, bank in enumerate(banks):
         text = encode(sfmt, bank, rng, 'utf-8')
-        name = 'part%d.%s' % (i, sfmt)
-        with io.open(os.path.join(d, name), 'w', encoding='utf-8') as f:
-            f.write(text)
+        name = 'part%d.%s' % (i, sfmt) + ('.gz' if gz else '')
+        if gz:
+            with gzip.open(os.path.join(d, name), 'wb') as f:
+                f.write(text.encode('utf-8'))
+        else:
+            with io.open(os.path.join(d, name), 'w', encoding='utf-8') as f:
+                f.write(text)
         names.append(name)
     rc, err = convert(ctx, d, os.path.join(d, 'ignored'), sfmt, dfmt)
     if rc != 0:
@@ -409,6 +417,8 @@ def run_dir(ctx, case, rng):
             raise Fail('directory-mode-content', '%s: %s'
                        % (name, first_diff(have, want)))
     ctx.stratum('directory source')
+    if gz:
+        ctx.stratum('directory of gzip sources')
 
 
 def draw_pair(rng, sfmt, dfmt):
@@ -469,7 +479,8 @@ def shard(ctx):
         case = {'kind': 'dir', 'src': a, 'dst': b, 'senc': 'utf-8',
                 'denc': 'utf-8', 'seed': rng.randrange(10 ** 6)}
         case['banks'] = [make_bank(rng, cont, 'utf-8', False, False)
-                         for _ in range(rng.randint(1, 3))]
+                         for _ in range(rng.randint(1, 4))]
+        case['gz'] = rng.random() < 0.5
         case['bank'] = case['banks'][0]
         run_case(ctx, case)
 
